@@ -382,12 +382,12 @@ def validate_case(draw, tier):
     w = draw(gen.raw(n, 0.05, 1.0))
     eps_kind = draw(st.sampled_from(["none", "value"]))
     eps = None if eps_kind == "none" else draw(gen.log_uniform(1e-12, 1e-3))
-    kind = draw(st.sampled_from(["none", "neg", "sum", "neg", "sum"]))
+    kind = draw(st.sampled_from(["neg", "sum", "neg", "sum", "none"]))
     band = draw(st.sampled_from(["below", "above", "below", "above", "far"]))
     ratio = draw(gen.log_uniform(1e-3, 0.09) if band == "below" else (gen.log_uniform(11.0, 1e3) if band == "above" else gen.log_uniform(1e3, 1e6)))
     return {
         "w": w, "eps": eps, "kind": kind, "ratio": ratio, "pos": draw(st.integers(0, 7)),
-        "sign": draw(st.sampled_from([1.0, -1.0])), "validate_sum": draw(st.booleans()),
+        "sign": draw(st.sampled_from([1.0, -1.0])), "validate_sum": draw(st.sampled_from([True, True, False])),
         "raise_error": draw(st.sampled_from([True, True, False])), "as_list": draw(st.booleans()),
         "message": draw(st.sampled_from(["", "msg"])),
     }
